@@ -408,6 +408,10 @@ class SFNTWriter(object):
         return checksumadjustment
 
     def writeMasterChecksum(self, directory):
+        if self.tables["head"].length < 12:
+            # A raw 'head' (kept undecoded with ignoreDecompileErrors) too short to
+            # hold checkSumAdjustment: writing it would overwrite the next table.
+            return
         checksumadjustment = self._calcMasterChecksum(directory)
         # write the checksum to the file
         self.file.seek(self.tables["head"].offset + 8)
